@@ -74,6 +74,44 @@ KNOWN = {
 }
 
 
+# value classes defined outside src/registry.py and src/conf.py (src/log.py, src/callbacks.py, src/ircdb.py, plugins/*):
+# not modelled class by class (direct oracle: set / reject-atomic / save / reload on the real class), but part of the
+# inventory: their set()/setValue() bodies are in the reject-atomic table, and an unknown or reshaped class is an error.
+EXTRA_KNOWN = {
+    'callbacks.CanonicalString': ('oracle:defined outside src/registry.py and src/conf.py', ('registry.NormalizedString',), ('normalize',), ()),
+    'callbacks.Disabled': ('oracle:defined outside src/registry.py and src/conf.py', ('registry.SpaceSeparatedListOf',), (), ('List=CanonicalNameSet', 'Value=CanonicalString', 'sorted=True')),
+    'ircdb.SpaceSeparatedListOfCapabilities': ('oracle:defined outside src/registry.py and src/conf.py', ('registry.SpaceSeparatedListOfStrings',), (), ('List=CapabilitySet',)),
+    'ircdb.DefaultCapabilities': ('oracle:defined outside src/registry.py and src/conf.py', ('SpaceSeparatedListOfCapabilities',), ('setValue',), ()),
+    'log.ValidLogLevel': ('oracle:defined outside src/registry.py and src/conf.py', ('registry.String',), ('__str__', 'set'), ('handler=None', 'minimumLevel=-1')),
+    'log.LogLevel': ('oracle:defined outside src/registry.py and src/conf.py', ('ValidLogLevel',), (), ('handler=_handler',)),
+    'log.StdoutLogLevel': ('oracle:defined outside src/registry.py and src/conf.py', ('ValidLogLevel',), (), ('handler=_stdoutHandler',)),
+    'log.BooleanRequiredFalseOnWindows': ('oracle:defined outside src/registry.py and src/conf.py', ('registry.Boolean',), ('set',), ()),
+    'BadWords.LastModifiedSpaceSeparatedSetOfStrings': ('oracle:defined outside src/registry.py and src/conf.py', ('registry.SpaceSeparatedSetOfStrings',), ('setValue',), ('lastModified=0',)),
+    'BadWords.LastModifiedCommaSeparatedSetOfStrings': ('oracle:defined outside src/registry.py and src/conf.py', ('registry.CommaSeparatedSetOfStrings',), ('set', 'setValue'), ('lastModified=0',)),
+    'BadWords.String256': ('oracle:defined outside src/registry.py and src/conf.py', ('registry.String',), ('__call__', '__str__'), ()),
+    'BadWords.ReplacementMethods': ('oracle:defined outside src/registry.py and src/conf.py', ('registry.OnlySomeStrings',), (), ("validStrings=('simple', 'nastyCharacters')",)),
+    'ChannelStats.Smileys': ('oracle:defined outside src/registry.py and src/conf.py', ('registry.Value',), ('__str__', 'set', 'setValue'), ()),
+    'DDG.SafeSearch': ('oracle:defined outside src/registry.py and src/conf.py', ('registry.OnlySomeStrings',), (), ("validStrings=['active', 'moderate', 'off']",)),
+    'Factoids.FactoidFormat': ('oracle:defined outside src/registry.py and src/conf.py', ('registry.TemplatedString',), (), ("requiredTemplates=['value']",)),
+    'Google.Language': ('oracle:defined outside src/registry.py and src/conf.py', ('registry.OnlySomeStrings',), ('normalize',), ("transLangs={'Afrikaans': 'af', 'Albanian': 'sq', 'Amharic': 'am', 'Arabic': 'ar', 'Armenian': 'hy', 'Azerbaijani': 'az', 'Basque': 'eu', 'Belarusian': 'be', 'Bengali': 'bn', 'Bulgarian': 'bg', 'Burmese': 'my', 'Catalan': 'ca', 'Chinese': 'zh', 'Chinese_simplified': 'zh-CN', 'Chinese_traditional': 'zh-TW', 'Croatian': 'hr', 'Czech': 'cs', 'Danish': 'da', 'Dhivehi': 'dv', 'Dutch': 'nl', 'English': 'en', 'Esperanto': 'eo', 'Estonian': 'et', 'Filipino': 'tl', 'Finnish': 'fi', 'French': 'fr', 'Galician': 'gl', 'Georgian': 'ka', 'German': 'de', 'Greek': 'el', 'Gujarati': 'gu', 'Hebrew': 'iw', 'Hindi': 'hi', 'Hungarian': 'hu', 'Icelandic': 'is', 'Indonesian': 'id', 'Inuktitut': 'iu', 'Italian': 'it', 'Japanese': 'ja', 'Kannada': 'kn', 'Kazakh': 'kk', 'Khmer': 'km', 'Korean': 'ko', 'Kurdish': 'ku', 'Kyrgyz': 'ky', 'Laothian': 'lo', 'Latvian': 'lv', 'Lithuanian': 'lt', 'Macedonian': 'mk', 'Malay': 'ms', 'Malayalam': 'ml', 'Maltese': 'mt', 'Marathi': 'mr', 'Mongolian': 'mn', 'Nepali': 'ne', 'Norwegian': 'no', 'Oriya': 'or', 'Pashto': 'ps', 'Persian': 'fa', 'Polish': 'pl', 'Portuguese': 'pt-PT', 'Punjabi': 'pa', 'Romanian': 'ro', 'Russian': 'ru', 'Sanskrit': 'sa', 'Serbian': 'sr', 'Sindhi': 'sd', 'Sinhalese': 'si', 'Slovak': 'sk', 'Slovenian': 'sl', 'Spanish': 'es', 'Swedish': 'sv', 'Tajik': 'tg', 'Tamil': 'ta', 'Tagalog': 'tl', 'Telugu': 'te', 'Thai': 'th', 'Tibetan': 'bo', 'Turkish': 'tr', 'Ukranian': 'uk', 'Urdu': 'ur', 'Uzbek': 'uz', 'Uighur': 'ug', 'Vietnamese': 'vi', 'Detect language': 'auto'}", "validStrings=['lang_' + s for s in transLangs.values()]")),
+    'Google.NumSearchResults': ('oracle:defined outside src/registry.py and src/conf.py', ('registry.PositiveInteger',), ('setValue',), ()),
+    'Google.SafeSearch': ('oracle:defined outside src/registry.py and src/conf.py', ('registry.OnlySomeStrings',), (), ("validStrings=['active', 'moderate', 'off']",)),
+    'Protector.ImmuneNicks': ('oracle:defined outside src/registry.py and src/conf.py', ('conf.ValidNicks',), (), ('List=ircutils.IrcSet',)),
+    'RSS.FeedNames': ('oracle:defined outside src/registry.py and src/conf.py', ('registry.SpaceSeparatedListOfStrings',), (), ('List=callbacks.CanonicalNameSet',)),
+    'RSS.FeedItemSortOrder': ('oracle:defined outside src/registry.py and src/conf.py', ('registry.OnlySomeStrings',), (), ("validStrings=('asInFeed', 'oldestFirst', 'newestFirst', 'outdatedFirst', 'updatedFirst')",)),
+    'Relay.Ignores': ('oracle:defined outside src/registry.py and src/conf.py', ('registry.SpaceSeparatedListOf',), (), ('List=ircutils.IrcSet', 'Value=conf.ValidHostmask')),
+    'Relay.Networks': ('oracle:defined outside src/registry.py and src/conf.py', ('registry.SpaceSeparatedListOf',), (), ('List=ircutils.IrcSet', 'Value=registry.String')),
+    'Services.ValidNickOrEmptyString': ('oracle:defined outside src/registry.py and src/conf.py', ('registry.String',), ('setValue',), ()),
+    'Services.ValidNickSet': ('oracle:defined outside src/registry.py and src/conf.py', ('conf.ValidNicks',), (), ('List=ircutils.IrcSet',)),
+    'Services.Networks': ('oracle:defined outside src/registry.py and src/conf.py', ('registry.SpaceSeparatedSetOfStrings',), (), ('List=ircutils.IrcSet',)),
+    'ShrinkUrl.ShrinkService': ('oracle:defined outside src/registry.py and src/conf.py', ('registry.OnlySomeStrings',), (), ("validStrings=('tiny', 'ur1', 'x0')",)),
+    'ShrinkUrl.ShrinkCycle': ('oracle:defined outside src/registry.py and src/conf.py', ('registry.SpaceSeparatedListOfStrings',), ('__init__', 'getService', 'setValue'), ('Value=ShrinkService',)),
+    'Topic.TopicFormat': ('oracle:defined outside src/registry.py and src/conf.py', ('registry.TemplatedString',), (), ("requiredTemplates=['topic']",)),
+    'Unix.NonOptionString': ('oracle:defined outside src/registry.py and src/conf.py', ('registry.String',), ('__init__', 'setValue'), ()),
+    'Unix.SpaceSeparatedListOfNonOptionStrings': ('oracle:defined outside src/registry.py and src/conf.py', ('registry.SpaceSeparatedListOfStrings',), (), ('Value=NonOptionString',)),
+}
+
+
 def class_sig(node):
     bases = tuple(ast.unparse(b) for b in node.bases)
     methods, attrs = [], []
@@ -89,30 +127,80 @@ def class_sig(node):
     return bases, tuple(sorted(methods)), tuple(sorted(attrs))
 
 
+def _modules():
+    """(module key, path) of every source file that may define registry value classes: src/registry.py and src/conf.py
+    first, then the other src/*.py, then plugins/*/config.py and plugins/*/plugin.py (key = plugin name [+ '.plugin'])"""
+    import glob, os
+    from gen_tables import REPO
+    mods = [('registry', 'src/registry.py'), ('conf', 'src/conf.py')]
+    for p_ in sorted(glob.glob(os.path.join(REPO, 'src', '*.py'))):
+        k = os.path.basename(p_)[:-3]
+        if k not in ('registry', 'conf'):
+            mods.append((k, 'src/%s.py' % k))
+    for p_ in sorted(glob.glob(os.path.join(REPO, 'plugins', '*', 'config.py'))):
+        mods.append((os.path.basename(os.path.dirname(p_)), os.path.relpath(p_, REPO)))
+    for p_ in sorted(glob.glob(os.path.join(REPO, 'plugins', '*', 'plugin.py'))):
+        mods.append((os.path.basename(os.path.dirname(p_)) + '.plugin', os.path.relpath(p_, REPO)))
+    out = []
+    for k, rel in mods:
+        txt = src(rel)
+        if k in ('registry', 'conf') or ('class ' in txt and ('registry.' in txt or 'conf.' in txt)):
+            out.append((k, rel))
+    return out
+
+
+def _classes():
+    out = {}
+    for mod, path in _modules():
+        for node in tree(path).body:
+            if isinstance(node, ast.ClassDef):
+                out['%s.%s' % (mod, node.name)] = node
+    return out
+
+
+def _qual(mod, name, classes):
+    """qualified name of a base / class expression written inside module [mod]"""
+    if name.startswith('supybot.'):
+        name = name[len('supybot.'):]
+    if name.startswith('registry.') or name.startswith('conf.'):
+        return name if name in classes else None
+    q = '%s.%s' % (mod, name)
+    return q if q in classes else None
+
+
+def _value_classes(classes):
+    """qualified names of the transitive subclasses of registry.Value, in module order"""
+    vs = {'registry.Value'}
+    changed = True
+    while changed:
+        changed = False
+        for q, node in classes.items():
+            if q in vs:
+                continue
+            mod = q.rsplit('.', 1)[0]
+            if any(_qual(mod, ast.unparse(b), classes) in vs for b in node.bases):
+                vs.add(q)
+                changed = True
+    return [q for q in classes if q in vs]
+
+
 def inventory(strict=True):
-    """[(qualified name, kind, bases, methods, attrs)] of every registry value class; raises Shape.
+    """[(qualified name, kind, bases, methods, attrs)] of every registry value class defined ANYWHERE in src/ and
+    plugins/ (not only src/registry.py and src/conf.py); raises Shape.
     strict=False (the harness, so that it can still replay its corpus when the shape check -- reported by the
     table generator -- fails): unknown classes get kind 'oracle:unknown', signatures are not compared"""
+    classes = _classes()
     out = []
-    for mod, path in (('registry', 'src/registry.py'), ('conf', 'src/conf.py')):
-        t = tree(path)
-        valueish = {'Value', 'registry.Value'} if mod == 'registry' else set()
-        if mod == 'conf':
-            valueish = {'registry.' + q.split('.', 1)[1] for q, *_ in out}
-        for node in t.body:
-            if not isinstance(node, ast.ClassDef):
-                continue
-            bases = [ast.unparse(b) for b in node.bases]
-            if node.name == 'Value' and mod == 'registry' or any(b in valueish for b in bases):
-                valueish.add(node.name)
-                q = '%s.%s' % (mod, node.name)
-                sig = class_sig(node)
-                need(q in KNOWN or not strict, 'unknown registry value class %s (bases %r): add it to the C15 model/inventory' % (q, sig[0]))
-                kind, kb, km, ka = KNOWN.get(q, ('oracle:unknown', (), (), ()))
-                need(not strict or sig == (tuple(kb), tuple(sorted(km)), tuple(sorted(ka))),
-                     'registry value class %s changed shape: now bases=%r methods=%r attrs=%r' % ((q,) + sig))
-                out.append((q, kind) + sig)
-    missing = set(KNOWN) - {q for q, *_ in out}
+    known = dict(KNOWN)
+    known.update(EXTRA_KNOWN)
+    for q in _value_classes(classes):
+        sig = class_sig(classes[q])
+        need(q in known or not strict, 'unknown registry value class %s (bases %r): add it to the C15 model/inventory' % (q, sig[0]))
+        kind, kb, km, ka = known.get(q, ('oracle:unknown', (), (), ()))
+        need(not strict or sig == (tuple(kb), tuple(sorted(km)), tuple(sorted(ka))),
+             'registry value class %s changed shape: now bases=%r methods=%r attrs=%r' % ((q,) + sig))
+        out.append((q, kind) + sig)
+    missing = set(known) - {q for q, *_ in out}
     need(not strict or not missing, 'registry value classes disappeared: %r' % sorted(missing))
     return out
 
@@ -257,6 +345,7 @@ def gen_T15():
     out += ('(* order of validation / side effects / store in X.set and X.setValue, inlined along the MRO *)\n'
             'Inductive stm : Type :=\n| SSkip | SCheck | SError | SAssign\n| SSeq (a b : stm) | SIf (a b : stm) | STry (body handler : stm).\n')
     out += 'Definition INVENTORY : list (list N) := %s.\n' % clist(cstr(q) for q, *_ in inv)
+    out += 'Definition ATOMIC_EXCEPTIONS : list (list N) := %s.\n' % clist(cstr(q) for q in atomic_exceptions(progs))
     out += 'Definition ATOMIC_TABLE : list (list N * stm * stm) :=\n  %s.\n' % clist(
         '\n   (%s, %s, %s)' % (cstr(q), stm_coq(a), stm_coq(b)) for q, a, b in progs)
     out += '(* class inventory (%d classes): %s *)\n' % (len(inv), ', '.join('%s:%s' % (q, k.split(':')[0]) for q, k, *_ in inv))
@@ -273,25 +362,16 @@ def gen_T15():
 #   SSeq a b | SIf a b | STry body handler
 # Fail-closed: a statement form the translator does not know raises Shape.  Calls trusted not to raise
 # although they follow the store are listed in NONRAISING (and in TRUSTED of harness/c15.py).
-NONRAISING = {'defaultHttpHeaders(None, None)'}     # conf.HttpRequestLanguage / HttpUserAgents: rebuilds a dict of headers
+NONRAISING = {'defaultHttpHeaders(None, None)',     # conf.HttpRequestLanguage / HttpUserAgents: rebuilds a dict of headers
+              # ircdb.DefaultCapabilities.setValue: after the store it prints a warning and adds '-owner' to the stored set
+              "print('*** You must run supybot with the --allow-default-owner')",
+              "print('*** option in order to allow a default capability of owner.')",
+              'print("*** Don\'t do that, it\'s dumb.")', "self.value.add('-owner')"}
+NONRAISING_TESTS = {"'-owner' not in set(self.value) and (not allowDefaultOwner)"}
+# classes whose set()/setValue() can raise AFTER the store (genuine defects, recorded as findings): the reject-atomic
+# theorem excludes exactly those of them that are still not atomic in the source being checked
+KNOWN_NONATOMIC = {'log.BooleanRequiredFalseOnWindows': 'C15.F33'}
 MAXDEPTH = 12
-
-
-def _classes():
-    out = {}
-    for mod, path in (('registry', 'src/registry.py'), ('conf', 'src/conf.py')):
-        for node in tree(path).body:
-            if isinstance(node, ast.ClassDef):
-                out['%s.%s' % (mod, node.name)] = node
-    return out
-
-
-def _qual(mod, name, classes):
-    """qualified name of a base / class expression written inside module [mod]"""
-    if name.startswith('registry.'):
-        return name if name in classes else None
-    q = '%s.%s' % (mod, name)
-    return q if q in classes else None
 
 
 def _mro(q, classes, memo):
@@ -370,8 +450,16 @@ class _Inliner:
                 start = i + 1
             else:
                 tq = _qual(mod, vs, self.classes)
-                need(tq is not None and tq in self.mro, '%s: cannot resolve the receiver of %s' % (self.q, src))
+                need(tq is not None, '%s: cannot resolve the receiver of %s' % (self.q, src))
                 need(len(c.args) >= 1 and ast.unparse(c.args[0]) == 'self', '%s: unbound call without self: %s' % (self.q, src))
+                if tq not in self.mro:
+                    # an unbound method of a class that is not an ancestor (plugins/BadWords): the function that runs is the
+                    # one the named class inherits; it must be defined by one of our own ancestors
+                    for anc in _mro(tq, self.classes, {}):
+                        if _defines(self.classes[anc], f.attr) is not None:
+                            tq = anc
+                            break
+                    need(tq in self.mro, '%s: %s runs a method of a class outside the MRO' % (self.q, src))
                 start = self.mro.index(tq)
             return _seq(pre + [self.method(start, f.attr, depth)])
         if isinstance(f, ast.Attribute) and ast.unparse(f) == 'self._setValue':
@@ -391,6 +479,10 @@ class _Inliner:
             return ('SCheck',) if _has_call(st.value) else ('SSkip',)
         if isinstance(st, ast.Raise):
             return ('SError',)
+        if isinstance(st, ast.Assign) and len(st.targets) == 1 and ast.unparse(st.targets[0]) == 'self.value':
+            # a class that stores without Value._setValue (plugins/ChannelStats Smileys)
+            pre = [('SCheck',)] if _has_call(st.value) and ast.unparse(st.value) not in NONRAISING else []
+            return _seq(pre + [('SAssign',)])
         if isinstance(st, (ast.Assign, ast.AugAssign, ast.AnnAssign)):
             v = st.value
             if v is None or not _has_call(v):
@@ -401,7 +493,8 @@ class _Inliner:
                  '%s: store call used as a value: %s' % (self.q, ast.unparse(st)))
             return ('SCheck',)
         if isinstance(st, ast.If):
-            return _seq([('SCheck',), ('SIf', self.block(st.body, i, depth), self.block(st.orelse, i, depth))])
+            test = [] if ast.unparse(st.test) in NONRAISING_TESTS else [('SCheck',)]
+            return _seq(test + [('SIf', self.block(st.body, i, depth), self.block(st.orelse, i, depth))])
         if isinstance(st, ast.Try):
             need(not st.finalbody, '%s: try/finally in set/setValue' % self.q)
             hs = [self.block(h.body, i, depth) for h in st.handlers]
@@ -482,3 +575,39 @@ def config_reset_sites():
     except Exception:
         out = []
     return (out + [False, False, False])[:3]
+
+
+def py_outs(p, d):
+    """Python mirror of Model.outs: the outcomes (dirty, raised) of program p from state d"""
+    k = p[0]
+    if k == 'SSkip':
+        return [(d, False)]
+    if k == 'SCheck':
+        return [(d, False), (d, True)]
+    if k == 'SError':
+        return [(d, True)]
+    if k == 'SAssign':
+        return [(True, False)]
+    if k == 'SSeq':
+        out = []
+        for (d1, r) in py_outs(p[1], d):
+            out += [(d1, True)] if r else py_outs(p[2], d1)
+        return out
+    if k == 'SIf':
+        return py_outs(p[1], d) + py_outs(p[2], d)
+    if k == 'STry':
+        out = []
+        for (d1, r) in py_outs(p[1], d):
+            out += ([(d1, True)] + py_outs(p[2], d1)) if r else [(d1, False)]
+        return out
+    raise Shape('unknown program node %r' % (k,))
+
+
+def atomic_exceptions(progs):
+    """names of the inventory classes whose set()/setValue() program is not atomic; each must be a recorded finding"""
+    bad = []
+    for q, a, b in progs:
+        if any(r and d for p_ in (a, b) for (d, r) in py_outs(p_, False)):
+            need(q in KNOWN_NONATOMIC, 'the set()/setValue() of %s can raise after it has stored the value (validation or side effect after the store)' % q)
+            bad.append(q)
+    return bad
